@@ -111,6 +111,8 @@ def run(rep):
             rep.disagree("_check_refname vs RefName.check_refname", {"name": hx(n)}, mres[k], v[k:k + 1])
     import corr_C16_backends
     corr_C16_backends.run(rep)
+    import corr_C16_packed
+    corr_C16_packed.run(rep)
 
 
 def replay(rep, body):
